@@ -252,6 +252,46 @@ def zlib_ladder(ctx):
     codec_run.run_items("san", more, lambda sp, r, c: judge_item(ctx, sp, r, c), batch=4)
 
 
+def alignment_sweep(ctx):
+    """Every residue of the payload length modulo the 16 KiB working buffer, for multi-buffer streams: the payload is
+    N constant bytes followed by ~60 KB of low-amplitude noise (a silent intro, then music), N = 0 .. 16383."""
+    from .. import runner
+    import random
+    fixed = random.Random(0)   # the first tail does not depend on VERIF_SEED: with it the sweep is known to meet the coincidence
+    tails = [bytes(fixed.choice(b"\x00\x01\x02\x03\x05\x08") for _ in range(60000)),
+             bytes(ctx.rng.choice(b"\x00\x01\x02\x03\x05\x08") for _ in range(60000)),
+             bytes((ctx.rng.randrange(16) + (i >> 8)) & 255 for i in range(40000))]
+    cases = []
+    span = 16384 if ctx.tier == "quick" else 49152
+    per = span // 64
+    for t, tail in enumerate(tails if ctx.tier != "quick" else tails[:2]):
+        for j in range(64):
+            cases.append({"id": "sw%d_%d" % (t, j), "no_tz": True,
+                          "ops": [{"op": "set_budget", "inflate": 10 ** 9},
+                                  {"op": "zlib_sweep", "tail": tail.hex(), "from": j * per, "to": (j + 1) * per, "fill": 0}]})
+    events = 0
+    for res in runner.run_cases(cases, cfg="plain", stall_timeout=300):
+        ev = res.events
+        if res.crash or len(ev) < 2 or "exc" in ev[1]:
+            kind = res.crash["kind"] if res.crash else (ev[1]["exc"]["type"] if len(ev) > 1 else "incomplete")
+            ctx.violation(f"crash zlib alignment-sweep {kind}", f"the alignment sweep died: {kind}", {"kind": "zlib-sweep", "ops": res.case["ops"][:1]})
+            continue
+        r = ev[1]["ret"]
+        ctx.count(r["ok"] + len(r["failures"]))
+        ctx.bump("alignment_sweep_round_trips", r["ok"] + len(r["failures"]))
+        events += r["alignment_events"]
+        for f in r["failures"][:3]:
+            if isinstance(f, dict):
+                ctx.violation("zlib-container-roundtrip-fails alignment-sweep " + f["what"].split(":")[0][:60],
+                              f"compress/uncompress of {f['N']} zero bytes + {len(bytes.fromhex(res.case['ops'][1]['tail']))} noisy bytes: {f['what']}",
+                              {"kind": "zlib-sweep", "N": f["N"], "tail": res.case["ops"][1]["tail"]})
+    ctx.extra["alignment_sweep_buffer_boundary_coincidences"] = events
+    if ctx.extra.get("alignment_sweep_round_trips", 0) < span * (2 if ctx.tier == "quick" else 3):
+        ctx.fail_harness("the alignment sweep did not complete")
+    # (how often the coincidence "input exhausted exactly as the output buffer fills" was met is in the evidence; about
+    # once per 16384 lengths is expected, so a sweep can also meet none - that is recorded, not judged)
+
+
 def run(ctx):
     n = 400 if ctx.tier == "quick" else 12000
     specs = []
@@ -272,11 +312,27 @@ def run(ctx):
                         "ASan+UBSan+_GLIBCXX_ASSERTIONS build; a sanitizer report during encode/decode is a violation"]
     codec_run.run_items("san", specs, lambda sp, r, c: judge_item(ctx, sp, r, c), batch=60)
     zlib_ladder(ctx)
+    alignment_sweep(ctx)
     if len(ctx.extra.get("by_kind", {})) != 11:
         ctx.fail_harness("not all 11 codecs were exercised")
 
 
 def replay(ctx, doc):
     r = doc["replay"]
+    if r.get("kind") == "zlib-sweep":
+        from .. import runner
+        if "N" not in r:
+            alignment_sweep(ctx)
+            return
+        res = runner.run_one({"id": "x", "no_tz": True, "ops": [{"op": "set_budget", "inflate": 10 ** 9},
+                                                             {"op": "zlib_sweep", "tail": r["tail"], "from": r["N"], "to": r["N"] + 1}]}, cfg="plain")
+        ctx.count()
+        f = (res.events[1].get("ret") or {}).get("failures") if len(res.events) > 1 else None
+        if f:
+            ctx.violation("zlib-container-roundtrip-fails alignment-sweep " + f[0]["what"].split(":")[0][:60], f[0]["what"], r)
+        return
+    if r.get("kind") == "zlib" and "value" not in r:
+        zlib_ladder(ctx)
+        return
     spec = (r["kind"], "roundtrip", r["value"], (r["class"], r["tag"]))
     codec_run.run_items("san", [spec], lambda sp, res, c: judge_item(ctx, sp, res, c))
